@@ -29,6 +29,8 @@ func init() {
 	wrap("C01", func(c *Ctx) { extra8SyncLoad(c, "C01-R15") })
 	wrap("C11", func(c *Ctx) { extra8SyncLoad(c, "C11-R20") })
 	wrap("C09", extra8C09)
+	wrap("C15", extra8C15)
+	wrap("C04", extra8C04b)
 	registry["C10"].Pkgs = append(registry["C10"].Pkgs, "fs/util/bufioutil")
 	registry["C17"].Pkgs = append(registry["C17"].Pkgs, "llm")
 }
@@ -799,4 +801,102 @@ func extra8C09(c *Ctx) {
 		c.Check(rule, f.Key()+" upload#"+itoa(n)+" on every iteration of the layer loop", c.Pos(up.Node), bad == "", bad)
 	}
 	c.Expect(rule, "uploads inside the layer loop of PushModel", n, 1)
+}
+
+// ---------------------------------------------------------------------------------- C15
+
+func extra8C15(c *Ctx) {
+	rule := "C15-R12"
+	c.Rule(rule, "a shared transfer holds nothing that belongs to one request: the entries of the download and upload tables (blobDownload, blobUpload) live in package-level maps, are joined by later requests and are driven by a goroutine started with context.Background, so none of their fields has a function type other than context.CancelFunc — a progress callback of the request that created the entry, kept in it and called from the transfer goroutine, sends on that request's channel after its handler has closed it (send on closed channel in a goroutine the recovery middleware does not cover)")
+	pkg := c.P.Pkgs["server"]
+	if pkg == nil {
+		c.Undecided(rule, "anchor:package server", "-", "anchor lost")
+		return
+	}
+	n := 0
+	for _, tn := range []string{"blobDownload", "blobUpload"} {
+		o := pkg.Types.Scope().Lookup(tn)
+		if o == nil {
+			c.Undecided(rule, "anchor:type server."+tn, "-", "anchor lost")
+			continue
+		}
+		st, ok := o.Type().Underlying().(*types.Struct)
+		if !ok {
+			continue
+		}
+		for i := 0; i < st.NumFields(); i++ {
+			fld := st.Field(i)
+			n++
+			bad := funcTypedPart(fld.Type(), 0)
+			c.Check(rule, "server."+tn+" field:"+fld.Name()+" holds no request callback", c.P.Pos(fld.Pos()), bad == "", "field of type "+bad+": a function value stored in an entry other requests join")
+		}
+	}
+	c.Expect(rule, "fields of the shared transfer entries", n, 15)
+}
+
+// funcTypedPart returns the spelling of a function type found in t (other than context.CancelFunc), or "".
+func funcTypedPart(t types.Type, depth int) string {
+	if depth > 3 {
+		return ""
+	}
+	if named, ok := t.(*types.Named); ok {
+		if named.Obj().Pkg() != nil && named.Obj().Pkg().Path() == "context" && named.Obj().Name() == "CancelFunc" {
+			return ""
+		}
+		if named.Obj().Pkg() != nil && !strings.HasPrefix(named.Obj().Pkg().Path(), core.ModulePath) {
+			return "" // library types (sync.WaitGroup, atomic.Int64, …)
+		}
+	}
+	switch u := t.Underlying().(type) {
+	case *types.Signature:
+		return t.String()
+	case *types.Slice:
+		return funcTypedPart(u.Elem(), depth+1)
+	case *types.Array:
+		return funcTypedPart(u.Elem(), depth+1)
+	case *types.Map:
+		return funcTypedPart(u.Elem(), depth+1)
+	case *types.Chan:
+		return funcTypedPart(u.Elem(), depth+1)
+	case *types.Pointer:
+		if depth > 0 {
+			return "" // a pointer to another entry type is judged where that type is listed
+		}
+		return funcTypedPart(u.Elem(), depth+1)
+	}
+	return ""
+}
+
+// ---------------------------------------------------------------------------------- C04 (names)
+
+func extra8C04b(c *Ctx) {
+	rule := "C04-R16"
+	c.Rule(rule, "a model is looked up under the name it is stored under: in package server the argument of GetModel and ParseNamedManifest is never produced by Name.DisplayShortest() — the short form drops the default host and namespace whatever their case, and parsing it puts the lower-case defaults back, so a model stored as Library/x is listed (the listing walks the directory) but cannot be shown")
+	n := 0
+	for _, f := range c.P.FuncsOf("server") {
+		if strings.HasSuffix(c.Pos(f.Body), "_test.go") {
+			continue
+		}
+		info := f.Info()
+		var g *core.Graph
+		for _, call := range core.CallsTo(info, f.Body, false, "server.GetModel", "server.ParseNamedManifest") {
+			if len(call.Args) == 0 {
+				continue
+			}
+			n++
+			if g == nil {
+				g = c.G(f)
+			}
+			bad := ""
+			for _, x := range expand(g, call.Args[0], 2) {
+				for _, ds := range core.Calls(x, false) {
+					if strings.HasSuffix(core.CalleeName(info, ds), "Name.DisplayShortest") {
+						bad = core.ExprString(ds)
+					}
+				}
+			}
+			c.Check(rule, f.Key()+" lookup#"+itoa(n)+" by the stored name", c.Pos(call), bad == "", "the model is looked up as `"+bad+"`")
+		}
+	}
+	c.Expect(rule, "model look-ups in package server", n, 8)
 }
